@@ -26,22 +26,38 @@ def facts_coverage(ctx):
     cov = dict(ssz_facts=dict(go_types=len(re.findall(r"^def T_", src, re.M)), view_type_defs=len(re.findall(r"^def V_", src, re.M)),
                               method_bodies=5 * len(re.findall(r"^def T_", src, re.M)), opaque_method_bodies=len(opaque),
                               opaque_list=opaque, row_obligations=len(re.findall(r"^theorem row_ok_", src, re.M))))
-    if any("lake build" in str(b.get("what", "")) for b in ctx.get("broken", [])):
-        body = src.split("theorem row_ok_")[0]
-        script = body + ("\nopen Zrnt.Schema in\n#eval (types.filterMap fun T => (checkType owners views T).map "
-                         "fun r => s!\"ROW {Name.toString T.name}: {r}\")\nend Zrnt.Gen.SszFacts\n")
-        os.makedirs(os.path.join(root, "build", "audit"), exist_ok=True)
-        sp = os.path.join(root, "build", "audit", "ssz_rows.lean")
-        open(sp, "w").write(script)
+    # evaluate checkType on every row (compiled evaluation, ~4 s): names the offending rows when the facts module no
+    # longer builds, and reports the rows that deviate exactly as recorded in Zrnt.Schema.KnownDeviations as
+    # (known) findings
+    body = src.split("theorem row_ok_")[0]
+    script = body + ("\nopen Zrnt.Schema in\n#eval (types.filterMap fun T => (checkType owners views T).map "
+                     "fun r => s!\"ROW {Name.toString T.name}: {r}\")\nend Zrnt.Gen.SszFacts\n")
+    os.makedirs(os.path.join(root, "build", "audit"), exist_ok=True)
+    sp = os.path.join(root, "build", "audit", "ssz_rows_%s.lean" % ctx.get("prop", "x"))
+    open(sp, "w").write(script)
+    try:
+        out = subprocess.run(["lake", "env", "lean", sp], cwd=os.path.join(root, "lean"), stdout=subprocess.PIPE,
+                             stderr=subprocess.STDOUT, text=True, timeout=600).stdout
+        rows = re.findall(r'"ROW ([^"]+)"', out)
         try:
-            out = subprocess.run(["lake", "env", "lean", sp], cwd=os.path.join(root, "lean"), stdout=subprocess.PIPE,
-                                 stderr=subprocess.STDOUT, text=True, timeout=600).stdout
-            rows = re.findall(r'"ROW ([^"]+)"', out)
-            if rows:
-                ctx["broken"].append(dict(what="ssz facts: rows that disagree with the specification schema (type: method)", detail=rows[:40]))
-                cov["ssz_facts"]["failing_rows"] = rows[:40]
-        except Exception as e:  # naming the rows is best effort; the broken obligation is already recorded
-            cov["ssz_facts"]["failing_rows_error"] = str(e)[:200]
+            kd = open(os.path.join(root, "lean", "Zrnt", "Schema", "KnownDeviations.lean")).read()
+            known_rows = set(re.findall(r'\(n!"([^"]+)", "([^"]+)"\)', kd))
+        except OSError:
+            known_rows = set()
+        unknown = []
+        for r in rows:
+            name, _, reason = r.partition(": ")
+            if (name, reason) in known_rows:
+                ctx["violations"].append(dict(descriptor="sszfacts: row %s: %s" % (name, reason), mode="sszfacts", ops=[],
+                                              first_bad=dict(row=name, reason=reason), no_input=True))
+            else:
+                unknown.append(r)
+        cov["ssz_facts"]["deviating_rows_recorded"] = [r for r in rows if r not in unknown]
+        if unknown:
+            ctx["broken"].append(dict(what="ssz facts: rows that disagree with the specification schema (type: method)", detail=unknown[:40]))
+            cov["ssz_facts"]["failing_rows"] = unknown[:40]
+    except Exception as e:  # naming the rows is best effort; a broken obligation is recorded by the build step
+        cov["ssz_facts"]["failing_rows_error"] = str(e)[:200]
     return cov
 
 
@@ -53,7 +69,7 @@ PROPS = {"C04": dict(
               "Zrnt.Proofs.C04.decode_some_imp_canonical", "Zrnt.Proofs.C04.decode_injective",
               "Zrnt.Proofs.C04.decode_list_within_limit", "Zrnt.Proofs.C04.encode_injective",
               "Zrnt.Proofs.C04.schema_types_legal", "Zrnt.Proofs.C04.schema_round_trip", "Zrnt.Proofs.C04.limits_agree_for_all_configs",
-              "Zrnt.Proofs.C04.ssz_methods_agree", "Zrnt.Proofs.C04.ssz_types_complete",
+              "Zrnt.Proofs.C04.ssz_methods_agree", "Zrnt.Proofs.C04.known_deviations_are", "Zrnt.Proofs.C04.ssz_types_complete",
               "Zrnt.Proofs.C04.no_opaque_bodies", "Zrnt.Proofs.C04.checkType_sound_struct",
               "Zrnt.Proofs.C04.checkType_sound_list"],
     modes=[dict(name="ssz")],
